@@ -1,0 +1,212 @@
+//go:build verif
+
+// Contracts for package protocol (comment-only; read by /verif/govc, never compiled into olric).
+// Property C16: every parser is total on every argument vector with at least the command name;
+// property C15 contracts (builder/parser round trips) are further below.
+
+package protocol
+
+//@ func errWrongNumber(args [][]byte) error
+//@   props C16
+//@   flag termination
+//@   requires #nonempty: len(args) >= 1
+//@   ensures  #nonnil: result != nil
+//@   loop 0 invariant #nonempty: len(args) >= 1
+//@   loop 0 decreases len(args)
+
+//@ func ParseClusterRoutingTable(cmd redcon.Command) (*ClusterRoutingTable, error)
+//@   props C16
+//@   flag termination
+//@   requires #args: len(cmd.Args) >= 1
+//@   ensures  #nonnil: result.1 == nil ==> result.0 != nil
+
+//@ func ParseClusterMembers(cmd redcon.Command) (*ClusterMembers, error)
+//@   props C16
+//@   flag termination
+//@   requires #args: len(cmd.Args) >= 1
+//@   ensures  #nonnil: result.1 == nil ==> result.0 != nil
+
+//@ func ParsePutCommand(cmd redcon.Command) (*Put, error)
+//@   props C16
+//@   flag termination
+//@   requires #args: len(cmd.Args) >= 1
+//@   ensures  #nonnil: result.1 == nil ==> result.0 != nil
+//@   loop 0 decreases len(args)
+
+//@ func ParsePutEntryCommand(cmd redcon.Command) (*PutEntry, error)
+//@   props C16
+//@   flag termination
+//@   requires #args: len(cmd.Args) >= 1
+//@   ensures  #nonnil: result.1 == nil ==> result.0 != nil
+
+//@ func ParseGetCommand(cmd redcon.Command) (*Get, error)
+//@   props C16
+//@   flag termination
+//@   requires #args: len(cmd.Args) >= 1
+//@   ensures  #nonnil: result.1 == nil ==> result.0 != nil
+
+//@ func ParseGetEntryCommand(cmd redcon.Command) (*GetEntry, error)
+//@   props C16
+//@   flag termination
+//@   requires #args: len(cmd.Args) >= 1
+//@   ensures  #nonnil: result.1 == nil ==> result.0 != nil
+
+//@ func ParseDelCommand(cmd redcon.Command) (*Del, error)
+//@   props C16
+//@   flag termination
+//@   requires #args: len(cmd.Args) >= 1
+//@   ensures  #nonnil: result.1 == nil ==> result.0 != nil
+
+//@ func ParseDelEntryCommand(cmd redcon.Command) (*DelEntry, error)
+//@   props C16
+//@   flag termination
+//@   requires #args: len(cmd.Args) >= 1
+//@   ensures  #nonnil: result.1 == nil ==> result.0 != nil
+
+//@ func ParsePExpireCommand(cmd redcon.Command) (*PExpire, error)
+//@   props C16
+//@   flag termination
+//@   requires #args: len(cmd.Args) >= 1
+//@   ensures  #nonnil: result.1 == nil ==> result.0 != nil
+
+//@ func ParseExpireCommand(cmd redcon.Command) (*Expire, error)
+//@   props C16
+//@   flag termination
+//@   requires #args: len(cmd.Args) >= 1
+//@   ensures  #nonnil: result.1 == nil ==> result.0 != nil
+
+//@ func ParseDestroyCommand(cmd redcon.Command) (*Destroy, error)
+//@   props C16
+//@   flag termination
+//@   requires #args: len(cmd.Args) >= 1
+//@   ensures  #nonnil: result.1 == nil ==> result.0 != nil
+
+//@ func ParseScanCommand(cmd redcon.Command) (*Scan, error)
+//@   props C16
+//@   flag termination
+//@   requires #args: len(cmd.Args) >= 1
+//@   ensures  #nonnil: result.1 == nil ==> result.0 != nil
+//@   loop 0 decreases len(args)
+
+//@ func ParseIncrCommand(cmd redcon.Command) (*Incr, error)
+//@   props C16
+//@   flag termination
+//@   requires #args: len(cmd.Args) >= 1
+//@   ensures  #nonnil: result.1 == nil ==> result.0 != nil
+
+//@ func ParseDecrCommand(cmd redcon.Command) (*Decr, error)
+//@   props C16
+//@   flag termination
+//@   requires #args: len(cmd.Args) >= 1
+//@   ensures  #nonnil: result.1 == nil ==> result.0 != nil
+
+//@ func ParseGetPutCommand(cmd redcon.Command) (*GetPut, error)
+//@   props C16
+//@   flag termination
+//@   requires #args: len(cmd.Args) >= 1
+//@   ensures  #nonnil: result.1 == nil ==> result.0 != nil
+
+//@ func ParseIncrByFloatCommand(cmd redcon.Command) (*IncrByFloat, error)
+//@   props C16
+//@   flag termination
+//@   requires #args: len(cmd.Args) >= 1
+//@   ensures  #nonnil: result.1 == nil ==> result.0 != nil
+
+//@ func ParseLockCommand(cmd redcon.Command) (*Lock, error)
+//@   props C16
+//@   flag termination
+//@   requires #args: len(cmd.Args) >= 1
+//@   ensures  #nonnil: result.1 == nil ==> result.0 != nil
+
+//@ func ParseUnlockCommand(cmd redcon.Command) (*Unlock, error)
+//@   props C16
+//@   flag termination
+//@   requires #args: len(cmd.Args) >= 1
+//@   ensures  #nonnil: result.1 == nil ==> result.0 != nil
+
+//@ func ParseLockLeaseCommand(cmd redcon.Command) (*LockLease, error)
+//@   props C16
+//@   flag termination
+//@   requires #args: len(cmd.Args) >= 1
+//@   ensures  #nonnil: result.1 == nil ==> result.0 != nil
+
+//@ func ParsePLockLeaseCommand(cmd redcon.Command) (*PLockLease, error)
+//@   props C16
+//@   flag termination
+//@   requires #args: len(cmd.Args) >= 1
+//@   ensures  #nonnil: result.1 == nil ==> result.0 != nil
+
+//@ func ParsePublishCommand(cmd redcon.Command) (*Publish, error)
+//@   props C16
+//@   flag termination
+//@   requires #args: len(cmd.Args) >= 1
+//@   ensures  #nonnil: result.1 == nil ==> result.0 != nil
+
+//@ func ParsePublishInternalCommand(cmd redcon.Command) (*PublishInternal, error)
+//@   props C16
+//@   flag termination
+//@   requires #args: len(cmd.Args) >= 1
+//@   ensures  #nonnil: result.1 == nil ==> result.0 != nil
+
+//@ func ParseSubscribeCommand(cmd redcon.Command) (*Subscribe, error)
+//@   props C16
+//@   flag termination
+//@   requires #args: len(cmd.Args) >= 1
+//@   ensures  #nonnil: result.1 == nil ==> result.0 != nil
+//@   loop 0 decreases len(args)
+
+//@ func ParsePSubscribeCommand(cmd redcon.Command) (*PSubscribe, error)
+//@   props C16
+//@   flag termination
+//@   requires #args: len(cmd.Args) >= 1
+//@   ensures  #nonnil: result.1 == nil ==> result.0 != nil
+//@   loop 0 decreases len(args)
+
+//@ func ParsePubSubChannelsCommand(cmd redcon.Command) (*PubSubChannels, error)
+//@   props C16
+//@   flag termination
+//@   requires #args: len(cmd.Args) >= 1
+//@   ensures  #nonnil: result.1 == nil ==> result.0 != nil
+
+//@ func ParsePubSubNumpatCommand(cmd redcon.Command) (*PubSubNumpat, error)
+//@   props C16
+//@   flag termination
+//@   requires #args: len(cmd.Args) >= 1
+//@   ensures  #nonnil: result.1 == nil ==> result.0 != nil
+
+//@ func ParsePubSubNumsubCommand(cmd redcon.Command) (*PubSubNumsub, error)
+//@   props C16
+//@   flag termination
+//@   requires #args: len(cmd.Args) >= 1
+//@   ensures  #nonnil: result.1 == nil ==> result.0 != nil
+//@   loop 0 decreases len(args)
+
+//@ func ParsePingCommand(cmd redcon.Command) (*Ping, error)
+//@   props C16
+//@   flag termination
+//@   requires #args: len(cmd.Args) >= 1
+//@   ensures  #nonnil: result.1 == nil ==> result.0 != nil
+
+//@ func ParseMoveFragmentCommand(cmd redcon.Command) (*MoveFragment, error)
+//@   props C16
+//@   flag termination
+//@   requires #args: len(cmd.Args) >= 1
+//@   ensures  #nonnil: result.1 == nil ==> result.0 != nil
+
+//@ func ParseUpdateRoutingCommand(cmd redcon.Command) (*UpdateRouting, error)
+//@   props C16
+//@   flag termination
+//@   requires #args: len(cmd.Args) >= 1
+//@   ensures  #nonnil: result.1 == nil ==> result.0 != nil
+
+//@ func ParseLengthOfPartCommand(cmd redcon.Command) (*LengthOfPart, error)
+//@   props C16
+//@   flag termination
+//@   requires #args: len(cmd.Args) >= 1
+//@   ensures  #nonnil: result.1 == nil ==> result.0 != nil
+
+//@ func ParseStatsCommand(cmd redcon.Command) (*Stats, error)
+//@   props C16
+//@   flag termination
+//@   requires #args: len(cmd.Args) >= 1
+//@   ensures  #nonnil: result.1 == nil ==> result.0 != nil
